@@ -104,3 +104,34 @@ def paths(obj, prefix="", out=None, _seen=None):
             out[prefix] = ("repr", repr(obj))
     _seen.discard(oid)
     return out
+
+
+def tamper(obj, _seen=None):
+    """Deliberately damages every mutable container reachable from obj (lists get a junk element,
+    dicts a junk key, str-valued attributes of repository objects are overwritten).  Used by the
+    'state carried between calls' monitors: after tampering with the RESULT of a call, repeating the
+    call on the same input must give the original result again."""
+    if _seen is None:
+        _seen = set()
+    if isinstance(obj, _ATOM) or isinstance(obj, (BaseException, type)) or id(obj) in _seen:
+        return
+    _seen.add(id(obj))
+    if isinstance(obj, list):
+        for x in list(obj):
+            tamper(x, _seen)
+        obj.append("<tampered>")
+    elif isinstance(obj, dict):
+        for v in list(obj.values()):
+            tamper(v, _seen)
+        obj["<tampered>"] = 1
+    elif isinstance(obj, (set, frozenset, tuple)):
+        for x in obj:
+            tamper(x, _seen)
+    else:
+        d = getattr(obj, "__dict__", None)
+        if d is not None:
+            for k, v in list(d.items()):
+                if isinstance(v, str):
+                    d[k] = v + "<tampered>"
+                else:
+                    tamper(v, _seen)
